@@ -123,11 +123,19 @@ def one_case(rng, runq, todo, rep, dim, quick, idx):
 
     with warnings.catch_warnings():
         warnings.simplefilter("ignore")
-        ps = fitx(make(), y, w)
-        yhat = np.asarray(ps.y_hat, float)
-        beta = np.asarray(ps.beta_hat, float)
-        H = np.asarray(ps.diagnostics["hat_matrix"], float)
-        ypred_fit = np.asarray(ps.predict(xs_list[0] if dim == 1 else xs_list), float)
+        try:
+            ps = fitx(make(), y, w)
+            yhat = np.asarray(ps.y_hat, float)
+            beta = np.asarray(ps.beta_hat, float)
+            H = np.asarray(ps.diagnostics["hat_matrix"], float)
+            ypred_fit = np.asarray(ps.predict(xs_list[0] if dim == 1 else xs_list), float)
+        except Exception as e:  # noqa: BLE001
+            rep.case((dim, tuple(nsegs), tuple(degs), d, y.tobytes()), kind=f"{dim}-D/fit-raised")
+            rep.violation(f"PSplines fit / predict of a legitimate {dim}-D problem (n_segments={nsegs}, degree={degs}, order_penalty={d}, "
+                          f"grid sizes {[len(x) for x in xs_list]}) raised {type(e).__name__}: {e}"[:400],
+                          {"dim": dim, "n_segments": nsegs, "degree": degs, "order_penalty": d, "x": [C.hexf(x) for x in xs_list],
+                           "y": C.hexf(y), "w": C.hexf(w)})
+            return
     opts = {"dim": dim, "n_segments": nsegs, "degree": degs, "order_penalty": d, "penalties": lams, "weights": wkind,
             "shape": list(shape), "defaults": {"weights": bool(default_w), "penalty": bool(default_pen)},
             "scalar_configuration": bool(scalar_cfg), "explicit_domain": bool(explicit_dom)}
@@ -170,7 +178,13 @@ def one_case(rng, runq, todo, rep, dim, quick, idx):
     xnew = [np.sort(np.round(rng.uniform(x[0], x[-1], size=3) * 64) / 64).clip(x[0], x[-1]) for x in xs_list]
     with warnings.catch_warnings():
         warnings.simplefilter("ignore")
-        ypn = np.asarray(ps.predict(xnew[0] if dim == 1 else xnew), float)
+        try:
+            ypn = np.asarray(ps.predict(xnew[0] if dim == 1 else xnew), float)
+        except Exception as e:  # noqa: BLE001
+            rep.violation(f"PSplines.predict at new points inside the fit domain ({dim}-D, n_segments={nsegs}, degree={degs}, grid sizes "
+                          f"{[len(x) for x in xs_list]}) raised {type(e).__name__}: {e}"[:400],
+                          {**replay, "x_new": [C.hexf(x) for x in xnew]})
+            return
     rowsn = [f"(rows1 {C.qlit(a)} {C.qlit(b)} {ns}%nat {p}%nat {C.qlist(x)})"
              for x, ns, p, (a, b) in zip(xnew, nsegs, degs, doms)]
     Bn = rowsn[0] if dim == 1 else (f"(design2 opsQ {rowsn[0]} {rowsn[1]})" if dim == 2
